@@ -33,7 +33,7 @@ def nabs(x):
 
 MANIFEST = dict(
     technique='explicit-state enumeration of the CTC matrix input tree x full LM/scale/bonus/beam/EOS/initial-state configuration product; real decoder + real LMWrapper + toy prefix-hash LMs vs sequential LM re-scoring and a reference LM-fused prefix beam search',
-    text='Bounded exhaustive: every matrix with T <= 3 (quick) / 4 (thorough) rows over a 6-row alphabet in each of 384 configurations. For every returned hypothesis the LM score must equal the sum of the wrapper\'s own per-character scores (+ bonus, + EOS) from the start state; best_hyp() must be the arg-max of vis + scale*LM, confidence() its posterior, the returned hidden state exactly the state of that transcript; scale 0 must reproduce LM-free decoding; the returned set must equal a reference prefix beam search ranked by the fused score. Added sub-sweeps: the same decoder object decoding another and a blank-only line first, exact ties of the fused score (hand-over and returned state must agree), and decoders built by decoder_factory from a configuration section (all scales incl. 0 x bonuses x beam widths) against directly constructed ones. After every decode the returned bag is re-weighted with each other LM scale (bag.lm_weight is a public attribute): best_hyp() and confidence() must follow the new scale. Lines with blank-only frames (incl. lines on which only the blank is possible) with a supplied start state; decode_page() over a character set that holds the space. Wave 10: every single failing call of the language model (out-of-memory RuntimeError of advance_h0 / log_probs / eos_scores) during a decode of all matrices of up to two rows - a bag that is returned must still carry the LM\'s own scores, the maximum and its state; an LSTM-like LM whose state is a pair of tensors.',
+    text='Bounded exhaustive: every matrix with T <= 3 (quick) / 4 (thorough) rows over a 6-row alphabet in each of 384 configurations. For every returned hypothesis the LM score must equal the sum of the wrapper\'s own per-character scores (+ bonus, + EOS) from the start state; best_hyp() must be the arg-max of vis + scale*LM, confidence() its posterior, the returned hidden state exactly the state of that transcript; scale 0 must reproduce LM-free decoding; the returned set must equal a reference prefix beam search ranked by the fused score. Added sub-sweeps: the same decoder object decoding another and a blank-only line first, exact ties of the fused score (hand-over and returned state must agree), and decoders built by decoder_factory from a configuration section (all scales incl. 0 x bonuses x beam widths) against directly constructed ones. After every decode the returned bag is re-weighted with each other LM scale (bag.lm_weight is a public attribute): best_hyp() and confidence() must follow the new scale. Lines with blank-only frames (incl. lines on which only the blank is possible) with a supplied start state; decode_page() over a character set that holds the space. Wave 10: every single failing call of the language model (out-of-memory RuntimeError of advance_h0 / log_probs / eos_scores) during a decode of all matrices of up to two rows - a bag that is returned must still carry the LM\'s own scores, the maximum and its state; an LSTM-like LM whose state is a pair of tensors. Wave 11: wide beams - every line of 2-3 frames from three rows over a 10-letter alphabet (all letters relevant graded both ways, a narrow frame) x beam widths on both sides of 64 / 128 (quick 64, 65, 100, 129, 200) x 2 hash LMs x scales 0.5/3 x bonus x EOS x start state, so that the number of prefixes that are new in one frame (the batch the LM is advanced for) is below, between and above 64 and 128 (counted from the returned transcripts that are as long as the line): LM score by sequential re-scoring, result a maximum of the fused score, returned state the state of the result.',
     note='Toy LMs only (trained brnolm models are not available offline); the LM vocabulary equals the decoder letters; scores compared within 1e-9; near-ties (< 1e-9) of the fused score skip the arg-max clauses.',
     ref='3/C03')
 
@@ -50,7 +50,25 @@ BONUS = [0.0, 0.3]
 KS = [1, 2, 4, 100]
 EOS = [False, True]
 INIT = ['default', 'primed']
-BOUNDS = {'quick': dict(T=3), 'thorough': dict(T=4)}
+# wide beams on a longer alphabet: the number of prefixes that are NEW in one frame (those the LM is advanced for, in one batch call) lies on
+# both sides of 64 and 128 - nothing of that size exists over the 2-letter alphabet above.  Rows over 10 letters + blank:
+WLETTERS = list('abcdefghij') + ['<BLANK>']
+
+
+def _norm(v):
+    s = sum(v)
+    return [x / s for x in v]
+
+
+WROWS = [
+    _norm([0.85 ** i for i in range(11)]),                                  # every letter relevant, graded, blank least likely
+    _norm([0.05 * (1.0 + 0.13 * i) for i in range(10)] + [0.8]),            # blank-heavy, every letter relevant, graded the other way
+    _norm([0.2, 0.17, 0.15, 0.12, 0.1] + [1.0e-6] * 5 + [0.26]),            # a narrow frame: five letters below the decoder's relevance threshold
+]
+WLMS = [0, 1]
+WCFG = [(si, bi, ei, ii) for si in (1, 3) for bi in (0, 1) for ei in (0, 1) for ii in (0, 1)]     # scales 0.5 / 3 x bonus x eos x init
+BOUNDS = {'quick': dict(T=3, WT=3, WKS=[64, 65, 100, 129, 200]),
+          'thorough': dict(T=4, WT=3, WKS=[63, 64, 65, 66, 100, 127, 128, 129, 130, 200, 256, 257, 300])}
 BOUNDS['replay'] = BOUNDS['quick']
 EPS = 1e-9
 _W = {}
@@ -60,11 +78,12 @@ def setup(tier):
     pass
 
 
-def wrapper(kind):
-    if kind not in _W:
+def wrapper(kind, letters=None):
+    key = kind if letters is None else (kind, tuple(letters))
+    if key not in _W:
         from mc import stubs
-        _W[kind] = stubs.make_lm_wrapper(kind, LETTERS[:-1])
-    return _W[kind]
+        _W[key] = stubs.make_lm_wrapper(kind, (LETTERS if letters is None else letters)[:-1])
+    return _W[key]
 
 
 def shards(tier):
@@ -86,6 +105,14 @@ def shards(tier):
         else:
             for p in itertools.product(range(NR), repeat=t - 2):
                 out.append({'T': t, 'lm': 4, 'prefix': list(p)})
+    for lm in WLMS:                 # wide beams on the 10-letter alphabet (the number of new prefixes of one frame on both sides of 64 / 128)
+        for t in range(2, BOUNDS[tier]['WT'] + 1):
+            for k in BOUNDS[tier]['WKS']:
+                if t <= 2:
+                    out.append({'wide': t, 'lm': lm, 'k': k, 'prefix': []})
+                else:
+                    for p in itertools.product(range(len(WROWS)), repeat=t - 2):
+                        out.append({'wide': t, 'lm': lm, 'k': k, 'prefix': list(p)})
     for lm in LMS:
         out.append({'factory': lm})
         for t in range(1, T):       # lines with blank-only frames (incl. lines on which nothing but the blank is possible), one frame shorter
@@ -107,6 +134,10 @@ def run_shard(shard, ctx, tier):
                 for ei in (0, 1):
                     guarded_check(mod, {'faults': list(rows), 'lm': shard['lm'], 'cfg': [2, 1, ki, ei, 0]}, ctx)
         return
+    if 'wide' in shard:
+        for rest in itertools.product(range(len(WROWS)), repeat=shard['wide'] - len(shard['prefix'])):
+            guarded_check(mod, {'wide': shard['prefix'] + list(rest), 'lm': shard['lm'], 'k': shard['k']}, ctx)
+        return
     if shard.get('with_blank_row'):
         for rows in itertools.product(range(len(ROWS)), repeat=shard['T']):
             if NR in rows:
@@ -124,15 +155,15 @@ def h_value(h):
     return tuple((tuple(x.shape), tuple(float(v) for v in x.reshape(-1))) for x in parts)
 
 
-def seq_score(w, h0, transcript, bonus, eos, memo):
+def seq_score(w, h0, transcript, bonus, eos, memo, letters=LETTERS):
     """LM score of a transcript computed one symbol at a time through the wrapper; returns (score, final state)"""
     key = (transcript, bonus)
     if key not in memo:
         if not transcript:
             memo[key] = (0.0, h0)
         else:
-            s, h = seq_score(w, h0, transcript[:-1], bonus, False, memo)
-            c = LETTERS.index(transcript[-1])
+            s, h = seq_score(w, h0, transcript[:-1], bonus, False, memo, letters)
+            c = letters.index(transcript[-1])
             lp = float(w.log_probs(h)[0][c])
             h2 = w.advance_h0(np.asarray([c]), h)
             memo[key] = (s + lp + bonus, h2)
@@ -265,12 +296,72 @@ def check_faults(case, ctx):
             return
 
 
+def check_wide(case, ctx):
+    """wide beams: a 10-letter alphabet and beam widths on both sides of 64 / 128, so that the number of prefixes that are new in ONE frame
+    (the batch the language model is advanced for) takes values below, at and above these sizes.  Clauses: every returned hypothesis carries
+    the LM's own score (sequential re-scoring), the result is a maximum of vis + scale*LM, the returned state is the state of the result."""
+    from pero_ocr.decoding.decoders import CTCPrefixLogRawNumpyDecoder
+    rows, lm, k = case['wide'], case['lm'], case['k']
+    M = [WROWS[i] for i in rows]
+    lp = np.log(np.asarray(M, dtype=float))
+    w = wrapper(lm, WLETTERS)
+    ctx.state(('wide', tuple(rows), lm, k))
+    K = f'{ID}/lm{lm}/wide-beam'
+    memo_by_init = {}
+    for cfg in ([tuple(case['cfg'])] if 'cfg' in case else WCFG):
+        si, bi, ei, ii = cfg
+        scale, bonus, eos, init = SCALES[si], BONUS[bi], EOS[ei], INIT[ii]
+        sub = dict(case, cfg=list(cfg))
+        h0 = w.initial_h(1) if init == 'default' else w.initial_h_from_line('hedge')
+        memo = memo_by_init.setdefault(init, {})
+        dec = CTCPrefixLogRawNumpyDecoder(WLETTERS, k, lm=w, lm_scale=scale, insertion_bonus=bonus)
+        boh, hret = dec(lp.copy(), model_eos=eos, return_h=True, init_h=(None if init == 'default' else h0))
+        best = boh.best_hyp()
+        ctx.executed(2)
+        hyps = [(h.transcript, float(h.vis_sc), float(h.lm_sc)) for h in boh]
+        # a transcript with as many letters as the line has frames cannot have been in the beam before the last frame: a lower bound of
+        # the number of prefixes that were new in that frame
+        n_new = sum(1 for t, _, _ in hyps if len(t) == len(rows))
+        ctx.tag('wide-beam/at-most-64-new-prefixes-in-the-last-frame' if n_new <= 64 else
+                'wide-beam/65-to-128-new-prefixes-in-the-last-frame' if n_new <= 128 else
+                'wide-beam/more-than-128-new-prefixes-in-the-last-frame')
+        desc = (f'10-letter alphabet, matrix rows {rows} of WROWS, LM {lm}, scale {scale}, bonus {bonus}, k {k}, eos {eos}, init {init}: '
+                f'{len(hyps)} hypotheses, at least {n_new} of them new in the last frame')
+        bad = None
+        for t, v, l in hyps:
+            want, _ = seq_score(w, h0, t, bonus, eos, memo, WLETTERS)
+            if not (nabs(want - l) <= EPS):
+                bad = (t, l, want)
+                break
+        if bad:
+            ctx.violation('lm-score-is-the-models-own', f'{K}/lm-score-wrong',
+                          f'{desc}; LM score of {bad[0]!r} is {bad[1]}, sequential re-scoring gives {bad[2]}', sub)
+            continue
+        tot = [v + scale * l for _, v, l in hyps]
+        top = max(tot)
+        tied = [hyps[i][0] for i in range(len(hyps)) if top - tot[i] <= EPS]
+        ctx.outcome(('wide', len(best), min(len(hyps), 65)))
+        if best not in tied:
+            ctx.violation('result-maximises-fused-score', f'{K}/best_hyp/not-the-maximum',
+                          f'{desc}; best_hyp() = {best!r} but vis + {scale}*lm is maximal for {tied[:4]}', sub)
+            continue
+        _, hwant = seq_score(w, h0, best, bonus, False, memo, WLETTERS)
+        if h_value(hret) != h_value(hwant):
+            ctx.violation('returned-state-is-state-of-result', f'{K}/returned-state',
+                          f'{desc}; returned LM state {h_value(hret)} but feeding {best!r} gives {h_value(hwant)}', sub)
+            continue
+        if len(hyps) > 64:
+            ctx.nontrivial(('wide', tuple(rows), lm, k, cfg), 'wide-beam/more-than-64-hypotheses-returned')
+
+
 def check_case(case, ctx):
     from pero_ocr.decoding.decoders import CTCPrefixLogRawNumpyDecoder
     if 'faults' in case:
         return check_faults(case, ctx)
     if 'factory' in case:
         return check_factory(case, ctx)
+    if 'wide' in case:
+        return check_wide(case, ctx)
     rows, lm = case['rows'], case['lm']
     M = [ROWS[i] for i in rows]
     with np.errstate(divide='ignore'):
@@ -445,11 +536,13 @@ def describe(tier):
     return {
         'rule': 'every matrix with T<=T rows over the 6-row alphabet x 3 LMs x 4 scales x 2 bonuses x 4 beam widths x EOS on/off x 2 '
                 'initial states. state = (matrix, LM). Non-trivial: configurations in which the LM changes the winning hypothesis with '
-                'respect to the visual score alone; counter scale-changes-the-winner = winner differs from the unscaled (scale 1) choice.',
+                'respect to the visual score alone; counter scale-changes-the-winner = winner differs from the unscaled (scale 1) choice. '
+                'Wide-beam sub-sweep: every line of 2..WT frames over the 3 wide rows (10 letters + blank) x 2 LMs x beam widths WKS x 16 configurations; '
+                'counters wide-beam/*-new-prefixes-in-the-last-frame = number of returned transcripts as long as the line (<= 64, 65-128, > 128).',
         'bounds': dict(BOUNDS[tier], scales=SCALES, bonus=BONUS, ks=KS, eos=EOS, init=INIT, eps=EPS),
-        'alphabets': {'rows': ROWS, 'lms': ['hash(5)/scoreA', 'hash(7)/scoreB', 'constant', '(kind 4) LSTM-like pair state (h, c) / scoreA, T one shorter']},
+        'alphabets': {'wide_rows': WROWS, 'wide_letters': WLETTERS, 'wide_lms': WLMS, 'wide_configs': [[SCALES[a], BONUS[b], EOS[c], INIT[d]] for a, b, c, d in WCFG], 'rows': ROWS, 'lms': ['hash(5)/scoreA', 'hash(7)/scoreB', 'constant', '(kind 4) LSTM-like pair state (h, c) / scoreA, T one shorter']},
         'assumptions': ['LM vocabulary == decoder letters (the decoder indexes LM columns by letter index)',
                         'arg-max clauses are skipped when the two best fused scores are within 1e-9'],
         'min_nontrivial': 100,
-        'required_tags': ['language-model-with-a-tuple-state', 'language-model-failure-injected', 'best-hypothesis-begins-or-ends-with-a-space', 're-weighted-bag-changes-the-winner', 'decoder-built-from-configuration', 'tie-handled-consistently', 'decoder-reused-for-another-line', 'lm-changes-the-winner', 'scale-changes-the-winner', 'scale-zero-cases', 'beam-pruned'],
+        'required_tags': ['wide-beam/at-most-64-new-prefixes-in-the-last-frame', 'wide-beam/65-to-128-new-prefixes-in-the-last-frame', 'wide-beam/more-than-128-new-prefixes-in-the-last-frame', 'wide-beam/more-than-64-hypotheses-returned', 'language-model-with-a-tuple-state', 'language-model-failure-injected', 'best-hypothesis-begins-or-ends-with-a-space', 're-weighted-bag-changes-the-winner', 'decoder-built-from-configuration', 'tie-handled-consistently', 'decoder-reused-for-another-line', 'lm-changes-the-winner', 'scale-changes-the-winner', 'scale-zero-cases', 'beam-pruned'],
     }
